@@ -6,6 +6,7 @@ def dispatch (comp arg : String) : String :=
   match comp with
   | "c30" => runC30 arg
   | "c31" => runC31 arg
+  | "c29" => runC29 arg
   | _ => "bad-component"
 
 def main : IO Unit := mainWith dispatch
